@@ -127,6 +127,25 @@ def read_work(chunk):
                 check_read(t, DT, TM, "time", hms, "time", 0, None)
                 for ms in MSS:
                     check_read(t, DT, TM, "time", f"{hms}.{ms}", "time-ms", 0, None)
+        elif tag == "cli":
+            # the same notations as ofxget takes them on its command line (--start / --end / --asof)
+            _, m = job
+            from ofxtools.scripts import ofxget as og
+
+            class Cli:
+                def __init__(self, which):
+                    self.which = which
+
+                def convert(self, text):
+                    args = {"dtstart": None, "dtend": None, "dtasof": None}
+                    args["dt" + self.which] = text
+                    return og.convert_datetime(args)[self.which]
+
+            for si, sp in enumerate(spellings(m)):
+                for di, d in enumerate(("20240229", "19991231")):
+                    cli = Cli(("start", "end", "asof")[(si + di + m) % 3])
+                    check_read(t, cli, TM, "datetime", f"{d}115959.500[{sp}{NAMES[(si + di) % 3]}]", "ofxget-option-full", m, sp)
+                    check_read(t, cli, TM, "datetime", f"{d}000001[{sp}]", "ofxget-option-offset-without-ms", m, sp)
         elif tag == "names":
             # all names x all spellings of a few offsets
             _, m = job
@@ -392,6 +411,8 @@ def run(ctx):
     jobs.append(("plaintime",))
     for m in (-720, -330, -30, -1, 0, 1, 330, 345, 840):
         jobs.append(("names", m))
+    for m in range(-720, 841, 15):
+        jobs.append(("cli", m))
     tally = ctx.pmap(read_work, jobs, chunk=8)
 
     # rejects
@@ -433,7 +454,7 @@ def run(ctx):
         "distinct_nontrivial": tally.counts.get("evaluations", 0) - tally.counts.get("trivial", 0),
         "rule": "read: {full notation, offset-without-ms} x every offset -720..+840 min x every spelling (sign/no sign, 1-2 digit hours, "
         ".mm/.00/none) x date core (10 boundary dates" + ("" if ctx.quick else " + 48 month edges of 2023/2024") + ") x 4 time/ms pairs x "
-        "zone names rotating over {none,:EST,:Any Name}; plain notations x all dates x times x ms; rejects: every single-field corruption "
+        "zone names rotating over {none,:EST,:Any Name}; plain notations x all dates x times x ms; the full and offset-without-ms notations for every quarter-hour offset x spelling through ofxget's --start/--end/--asof conversion; rejects: every single-field corruption "
         "(drop/add digit or letter at every digit position, field out of range, unclosed bracket) of "
         f"{len(bases)} valid texts; write: every offset x boundary datetimes x 9 sub-ms parts x tzinfo variants, lexical rule + instant "
         "rounded to nearest ms + write-then-read within 500 us; 6 zones whose offset depends on the date, values on both sides of the change, in its last half millisecond, and in both passes of a repeated hour (fold) written through one shared tzinfo object in both orders; every case is a distinct text/value (all counted non-trivial)",
